@@ -21,6 +21,7 @@ ROOT = os.path.dirname(os.path.dirname(os.path.abspath(__file__)))
 HARNESS = os.path.join(ROOT, "harness")
 EVID = os.path.join(ROOT, "evidence")
 ENV = dict(os.environ, CARGO_NET_OFFLINE="true", CARGO_TERM_COLOR="never")
+ENV.setdefault("VERIF_ROOT", ROOT)
 SHARD_TIMEOUT = 3 * 3600
 
 
